@@ -14,6 +14,7 @@ import (
 
 	"github.com/btcsuite/btclog/v2"
 	"github.com/lightninglabs/lightning-node-connect/gbn"
+	"github.com/lightninglabs/lightning-node-connect/hashmailrpc"
 	"github.com/lightninglabs/lightning-node-connect/mailbox"
 )
 
@@ -499,6 +500,48 @@ func TestGenC05(t *testing.T) {
 	wg.Wait()
 	for k, oc := range outs {
 		judge(100000+k, oc.cfg, oc.class, oc.marker, oc.res, oc.relay, oc.leaked, oc.pan)
+	}
+	// one at a time: a WebSocket dial that is given up (its context ends while the peer is absent) or fails (the relay
+	// delivers something that is not a GBN packet in answer to the SYN): the constructor returns an error and the
+	// caller gets nothing it could close, so nothing may be left open
+	for _, how := range []string{"context-ends", "hostile-answer"} {
+		rr := r.sub(300000 + len(how))
+		relay := newFakeRelay()
+		wsHost, stop := relay.serveWS()
+		entropy := rr.bytes(14)
+		cd := mailbox.NewConnData(keyECDH(privFromRng(rr)), nil, entropy, nil, nil, nil)
+		sid, _ := cd.SID()
+		for _, toClient := range []bool{true, false} {
+			id := mailbox.GetSID(sid, toClient)
+			_, _ = relay.NewCipherBox(context.Background(), &hashmailrpc.CipherBoxAuth{Desc: &hashmailrpc.CipherBoxDesc{StreamId: id[:]}})
+		}
+		before := countGoroutines("websocket.(*Conn).timeoutLoop")
+		ctx, cancel := context.WithTimeout(context.Background(), 1500*time.Millisecond)
+		if how == "hostile-answer" {
+			id := mailbox.GetSID(sid, true)
+			relay.inject(string(id[:]), []byte{0x09, 0x09, 0x09})
+		}
+		cc, err := mailbox.NewClientConn(ctx, sid, wsHost, nil, btclog.Disabled, func(mailbox.ClientStatus) {})
+		cancel()
+		left := 0
+		if err == nil && cc != nil {
+			_ = cc.Close() // (the dial unexpectedly succeeded: then Close must clean up)
+		}
+		for k := 0; k < 60; k++ {
+			left = countGoroutines("websocket.(*Conn).timeoutLoop") - before
+			if left <= 0 {
+				break
+			}
+			time.Sleep(50 * time.Millisecond)
+		}
+		relay.mu.Lock()
+		rd, sd := relay.wsRecvDials, relay.wsSendDials
+		relay.mu.Unlock()
+		q.check(left <= 0, "c12:websocket-left-open-after-failed-dial:"+how, func() string {
+			return fmt.Sprintf("NewClientConn over WebSockets with the peer absent (%s) returned err=%v; it had dialled %d receive and %d send sockets; 3 s later %d sockets of the client are still open (websocket.(*Conn).timeoutLoop goroutines)", how, err, rd, sd, left)
+		})
+		q.stat("websocket_failed_dial_cases", 1)
+		stop()
 	}
 	// one at a time: a WebSocket client that starts before the server has created the mailboxes (its receive socket
 	// is answered with "stream not found" and re-dialled every 2 s); every socket it dialled is closed by Close
